@@ -1,4 +1,5 @@
 mod gens;
+mod layout;
 mod model;
 mod mops;
 mod ops;
